@@ -409,9 +409,11 @@ def _variants(p, info):
         q["crash"] = {"at": k, "kind": "exc" if k % 2 == 0 else "base"}
         out.append(q)
     for j in info["blocked_sends"]:
-        q = planmod.clone(p)
-        q["crash"] = {"sigint_at_send": j}
-        out.append(q)
+        # SIGINT at more than one moment of the blocked request: right after it blocks, and late
+        for delay in (0.0001, "late"):
+            q = planmod.clone(p)
+            q["crash"] = {"sigint_at_send": j, "delay": delay}
+            out.append(q)
     for j in info["reading_sends"]:
         q = planmod.clone(p)
         q["crash"] = {"eio_at_send": j}
@@ -701,7 +703,13 @@ class _Exec:
         if self.crash.get("sigint_at_send") == j:
             # SIGINT at an arbitrary moment of the blocked request: KeyboardInterrupt where the default
             # handler is in force, a SigIntEvent / nothing under the other handler configurations
-            world.after(0.0001, "signal", int(_signal.SIGINT))
+            delay = self.crash.get("delay", 0.0001)
+            if delay == "late":
+                t = it["timeout"]
+                delay = 0.9 * t if t else 0.5
+                if it["arrive"] and it["arrive_delay"] is not None:
+                    delay = min(delay, 0.9 * it["arrive_delay"])
+            world.after(delay, "signal", int(_signal.SIGINT))
             world.fault("sigint_during_blocked_request")
         if self.crash.get("eio_at_send") == j:
             kernel.read_faults.setdefault(s.fd, {})[s.tty.read_count + 1] = ("eio",)
